@@ -213,6 +213,9 @@ _EXAMPLE_OPEN = re.compile(r'^\s*(\}\s*)?//\s*rdfs:comment\s+"')
 _EXAMPLE_END = re.compile(r'"(@[A-Za-z0-9-]+|\^\^\S+)?\s*;?\s*$')
 
 
+EXAMPLE_LINE_FEED = "\ue000"      # stands for a raw line feed inside an example annotation (a private-use character)
+
+
 def _join_examples(lines):
     """example annotations (examples_mode, outside C05) print the value as it is: a literal whose lexical form holds a line feed
     spreads over several lines of the document; they are one annotation"""
@@ -225,7 +228,7 @@ def _join_examples(lines):
             while j < len(lines) and not _EXAMPLE_END.search(lines[j]):
                 j += 1
             if j < len(lines):
-                out.append("\\n".join([line] + lines[i + 1:j + 1]))
+                out.append(EXAMPLE_LINE_FEED.join([line] + lines[i + 1:j + 1]))
                 i = j + 1
                 continue
         out.append(line)
